@@ -3,6 +3,7 @@ package setec
 import (
 	"context"
 	"errors"
+	"math/big"
 	"strings"
 	"time"
 )
@@ -142,11 +143,23 @@ func verifHarnessC19SubSecond() {
 	// any stamp a cache may carry, also one in the future or absurdly far away (stamp 0 means "never read" and is the
 	// whole-second harness's business)
 	assume(and(cs.LastAccess != 0, cs.LastAccess > -(1<<62), cs.LastAccess < 1<<62))
-	nowNS := verifNowSec*1000000000 + verifNowFrac
-	readNS := cs.LastAccess*1000000000 + readFrac
 	got := s.hasExpired(cs)
-	assert("dropped-only-if-really-unread-for-longer-than-the-age", implies(got, and(not(cs.Declared), s.expiryAge > 0, nowNS-readNS > int64(s.expiryAge))))
+	assert("dropped-only-if-really-unread-for-longer-than-the-age", implies(got, and(not(cs.Declared), s.expiryAge > 0,
+		verifRealAgeExceeds(verifNowSec, verifNowFrac, cs.LastAccess, readFrac, int64(s.expiryAge)))))
 	reach("end")
+}
+
+// verifRealAgeExceeds: (nowSec·10^9 + nowFrac) − (accSec·10^9 + readFrac) > age, over the integers. Under the engine the
+// harness's arithmetic on clock quantities is mathematical; natively the products overflow int64 for far-away stamps,
+// so the native side computes with math/big.
+func verifRealAgeExceeds(nowSec, nowFrac, accSec, readFrac, age int64) bool {
+	if symbolic() {
+		return (nowSec*1000000000+nowFrac)-(accSec*1000000000+readFrac) > age
+	}
+	e9 := big.NewInt(1000000000)
+	now := new(big.Int).Add(new(big.Int).Mul(big.NewInt(nowSec), e9), big.NewInt(nowFrac))
+	read := new(big.Int).Add(new(big.Int).Mul(big.NewInt(accSec), e9), big.NewInt(readFrac))
+	return new(big.Int).Sub(now, read).Cmp(big.NewInt(age)) > 0
 }
 
 // C19: a read through a handle stamps the last-access time; C12: returns the installed bytes without blocking
